@@ -53,12 +53,14 @@ def fields_aad(ctx, facts):
         fields = [f["name"] for f in adt["variants"][0]["fields"]]
         # values written into the buffer: arguments of Vec::push / extend_from_slice whose receiver is the returned Vec
         written = set()
+        written_exprs = []
         consts = set()
         for bb, t in b.calls():
             fn = F.callee(t)[0] or ""
             if re.search(r"Vec::<T, A>::(push|extend_from_slice|extend|insert|append)$", fn) and not bounds.debug_only_blocks(b).__contains__(bb):
                 e = flow.expr_of(b, t["args"][-1])
                 written |= flow.field_names_in(e)
+                written_exprs.append(e)
                 s = str(e)
                 for c in ("DOMAIN", "HELPER_ORIGIN"):
                     if c in s:
@@ -80,8 +82,43 @@ def fields_aad(ctx, facts):
         for f in fields:
             ok = f in written
             ctx.ob("FIELDS-aad", f"{ty}.{f}", ok, "bound into the HPKE info" if ok else f"field `{f}` is not part of the HPKE info: it can be altered without decryption failing", site_of(b))
+            if ok:
+                bad = [x for x in (lossy_step(e) for e in written_exprs if f in flow.field_names_in(e)) if x]
+                exact = any(lossy_step(e) is None for e in written_exprs if f in flow.field_names_in(e))
+                ctx.ob("FIELDS-aad", f"{ty}.{f}:verbatim", exact, "the field's bytes enter the info through byte-preserving conversions only" if exact else f"field `{f}` enters the HPKE info only through `{bad[0]}`, which is not one of the byte-preserving conversions (as_bytes / to_be_bytes / widening): distinct field values can give the same info, so a changed field still decrypts", site_of(b))
         for c in ("DOMAIN", "HELPER_ORIGIN"):
             ctx.ob("FIELDS-aad", f"{ty}.{c}", c in consts, "domain separation constant is part of the info", site_of(b))
+
+
+VERBATIM = re.compile(r"(::as_bytes|::to_be_bytes|::to_le_bytes|::as_str|Deref::deref|AsRef::as_ref|::as_slice|Clone::clone|Borrow::borrow|From::from|Into::into|::as_ref)$")
+
+
+def lossy_step(e):
+    """first node of the expression that may map two field values to the same bytes (None = byte-preserving)"""
+    k = e[0]
+    if k in ("const", "static", "arg", "upvar", "place"):
+        return None
+    if k == "cast":
+        if not str(e[1]).startswith(("&", "*")):
+            return "`as %s` cast" % e[1]     # numeric `as` may truncate; the lossless idiom in this code base is From
+        return lossy_step(e[2])
+    if k == "proj":
+        return lossy_step(e[1])
+    if k == "ref":
+        return lossy_step(e[-1])
+    if k == "call":
+        if not VERBATIM.search(e[1]):
+            return e[1]
+        for a in e[2]:
+            x = lossy_step(a)
+            if x:
+                return x
+        return None
+    if k == "bin":
+        return "operator " + str(e[1])
+    if k == "un":
+        return "operator " + str(e[1])
+    return k
 
 
 # ---------------------------------------------------------------------------------------------
